@@ -35,7 +35,7 @@ def run(chk):
         rp = {'op': r.op, 'ids': [r.id], 'family': r.family, 'record': r.line[:3000]}
         t = Tok(r.res)
         if t.peek() == 'PANIC':
-            chk.extra_cov['skipped_panics'] = chk.extra_cov.get('skipped_panics', 0) + 1
+            chk.panic_record(r, ' '.join(r.res), rp)
             continue
         inp = parse_input(r.inp)
         tol = Tol(inp)
